@@ -390,9 +390,13 @@ def block_dict(c, blockid, pidx, parse_transactions, page, limit, net):
     page_names = block_page(height, page, limit)
     txs = [make_tx(net, n, pidx) for n in page_names] if parse_transactions else \
         [c.txs[n]['txid'] for n in page_names]
-    return {'bits': 0x1d00ffff, 'depth': 5, 'block_hash': block_hash(height),
+    bh, pbh = block_hash(height), block_hash(height - 1)
+    if getattr(E, 'foreign', False):
+        # the block another network has at this height: other hash, other time
+        bh, pbh = codec.sha256(b'vfforeign%d' % height).hex(), codec.sha256(b'vfforeign%d' % (height - 1)).hex()
+    return {'bits': 0x1d00ffff, 'depth': 5, 'block_hash': bh,
             'height': height, 'merkle_root': bytes.fromhex(d['txid'])[::-1].hex(), 'nonce': 7000 + pidx,
-            'prev_block': block_hash(height - 1), 'time': 1600000000 + height,
+            'prev_block': pbh, 'time': 1600000000 + height + (5000 if getattr(E, 'foreign', False) else 0),
             'tx_count': len(names), 'txs': txs, 'version': 1, 'page': page,
             'pages': max(1, -(-len(names) // limit)) if limit else 1, 'limit': limit}
 
@@ -1801,6 +1805,8 @@ def sub_hist(case):
         cfgid += '/' + forms_tag(forms)
     if vals:
         cfgid += '/' + vals_tag(vals)
+    if case.get('foreign'):
+        cfgid += '/after_other_network'
     from bitcoinlib.networks import Network
     nw = Network(net)
     default_fee = min(max(nw.fee_default, nw.fee_min), nw.fee_max) if nw.fee_default else None
@@ -1820,10 +1826,32 @@ def sub_hist(case):
 
     for hist in case['hists']:
         reset_env(net)
+        db = env.fresh_db_path('c20h')
+        if case.get('foreign'):
+            # the cache database is shared by all networks (library default): another network has been used before
+            # this history starts and has cached its blocks at the same heights, its block count and its fee
+            # estimates.  The model of this history knows nothing of them - none of it may ever be served here.
+            other = NETS[1] if net == NETS[0] else NETS[0]
+            E.ranks = _ranks_for(order)
+            E.foreign = True
+            fs = None
+            try:
+                set_health('H')
+                fs = new_service(setname, other, cfg, db)
+                for h in sorted(BLOCKS):
+                    fs.getblock(h, False)
+                    fs.getblock(h)
+                    fs.getblock(h, True, 1, 2)
+                fs.blockcount()
+                fs.estimatefee(3)
+                fs.estimatefee(10)
+            finally:
+                E.foreign = False
+                close_service(fs)
+            reset_env(net)
         E.forms = forms
         E.vals = vals
         E.ranks = _ranks_for(order)
-        db = env.fresh_db_path('c20h')
         model = CacheModel()
         srv = None
         old = []
@@ -2761,6 +2789,19 @@ def run(ctx):
                 cases.append({'family': fam, 'net': net, 'cfg': cfg, 'hists': ch})
             hb['%s/%s/%s' % (fam, net, json.dumps(cfg, sort_keys=True))] = '%d events ^ %d = %d histories' % (
                 len(alpha), ln, len(hs))
+    # the same histories over a cache database another network has used before (blocks at the same heights, block
+    # count, fee estimates): everything that is keyed by something two networks can share
+    for fam in ('block', 'page', 'vars'):
+        for net in NETS:
+            alpha = REDUCED[fam] if (q or net != NET) else FAMILIES[fam]
+            if fam == 'page' and alpha is REDUCED[fam]:
+                # header-only requests (limit 0) need no cached transaction to be answered from the cache
+                alpha = alpha + [Q('getblock', _bw('T:1:0'), 'H'), Q('getblock', _bw('T:1:0'), 'D'),
+                                 Q('getblock', _bw('F:1:0'), 'H')]
+            hs = histories(alpha, 2)
+            for ch in _chunks(hs, 24):
+                cases.append({'family': fam, 'net': net, 'cfg': {}, 'hists': ch, 'foreign': True})
+            hb['%s/%s/after_other_network' % (fam, net)] = '%d events ^ 2 = %d histories' % (len(alpha), len(hs))
     bounds['cache_histories'] = hb
     bounds['batched_balance_queries'] = (
         'family batch: getbalance(list, addresses_per_request) shapes %s; thorough: every order of 3 and of 2 of '
